@@ -9,9 +9,15 @@ import (
 	"fmt"
 	"os"
 	"strings"
+	"sync"
 )
 
+var instMu sync.Mutex
+
 const maxInstPerHyp = 160
+
+// ground select-equalities of the query being prepared (matching candidates for instantiate)
+var instKnown map[string][]*Term
 
 // skolemize strips universal quantifiers from the goal (introducing constants) and moves
 // antecedents of implications into *hyps.
@@ -75,6 +81,9 @@ func instantiate(t *Term, cands map[Sort][]*Term, arrIdx map[string][]*Term) *Te
 		tuples = append(tuples, nil)
 		for _, b := range t.Binders {
 			cs := cands[b.Sort]
+			if len(t.Binders) == 1 && b.Sort == SInt && instKnown != nil {
+				cs = append(append([]*Term(nil), cs...), selectMatchCands(instKnown, t.Args[0], b.Op)...)
+			}
 			if len(cs) == 0 {
 				return True
 			}
@@ -282,6 +291,10 @@ func prepareQuery(q *Query) {
 		fmt.Fprintln(os.Stderr, "INST", q.Name, len(sks), cands[SInt])
 	}
 	q.Goal = witnessExists(q.Goal, q.Hyps, sks)
+	instMu.Lock()
+	defer instMu.Unlock()
+	instKnown = collectSelectEqs(q.Hyps)
+	defer func() { instKnown = nil }()
 	var inst []*Term
 	for round := 0; round < 3; round++ {
 		arrIdx := map[string][]*Term{}
@@ -401,12 +414,14 @@ func witnessExists(goal *Term, hyps []*Term, sks []*Term) *Term {
 		}
 	}
 	add(IntLit(0))
+	known := collectSelectEqs(hyps)
+	matchCands := func(body *Term, binder string) []*Term { return selectMatchCands(known, body, binder) }
 	var rec func(t *Term, pos bool) *Term
 	rec = func(t *Term, pos bool) *Term {
 		switch {
 		case t.Kind == KQuant && t.Op == "exists" && pos && len(t.Binders) == 1 && t.Binders[0].Sort == SInt:
 			ds := []*Term{t}
-			for _, cnd := range cands {
+			for _, cnd := range append(append([]*Term(nil), cands...), matchCands(t.Args[0], t.Binders[0].Op)...) {
 				ds = append(ds, Subst(t.Args[0], map[string]*Term{t.Binders[0].Op: cnd}))
 			}
 			return Or(ds...)
@@ -515,4 +530,88 @@ func expandSmallRanges(t *Term) *Term {
 		return And(insts...)
 	}
 	return t
+}
+
+// collectSelectEqs gathers ground facts "select(A, t) = literal" (in any position of the hypotheses): candidates
+// for matching, never assumptions.
+func collectSelectEqs(hyps []*Term) map[string][]*Term {
+	known := map[string][]*Term{}
+	var collectEq func(t *Term)
+	collectEq = func(t *Term) {
+		if t.Kind != KApp {
+			return
+		}
+		if t.Op == "=" && len(t.Args) == 2 {
+			for i := 0; i < 2; i++ {
+				a, c := t.Args[i], t.Args[1-i]
+				if a.Kind == KApp && a.Op == "select" && c.Kind == KLit {
+					fv := map[string]*Term{}
+					freeBoundVars(a, map[string]bool{}, fv)
+					if len(fv) > 0 {
+						continue
+					}
+					k := a.Args[0].String() + "|" + c.String()
+					dup := false
+					for _, o := range known[k] {
+						if o.String() == a.Args[1].String() {
+							dup = true
+						}
+					}
+					if !dup && len(known[k]) < 4 {
+						known[k] = append(known[k], a.Args[1])
+					}
+				}
+			}
+			return
+		}
+		for _, a := range t.Args {
+			collectEq(a)
+		}
+	}
+	for _, h := range hyps {
+		collectEq(h)
+	}
+	return known
+}
+
+// selectMatchCands: the body mentions "select(A, base + n) = c" for the bound variable n and a ground fact
+// "select(A, t) = c" is known: try n := t - base (e.g. the position of a C string's terminator).
+func selectMatchCands(known map[string][]*Term, body *Term, binder string) []*Term {
+	var out []*Term
+	seen := map[string]bool{}
+	var walk func(t *Term)
+	walk = func(t *Term) {
+		if t.Kind == KApp && t.Op == "=" && len(t.Args) == 2 {
+			for i := 0; i < 2; i++ {
+				a, c := t.Args[i], t.Args[1-i]
+				if a.Kind == KApp && a.Op == "select" && c.Kind == KLit && mentionsBound(a.Args[1], map[string]bool{binder: true}) &&
+					!mentionsBound(a.Args[0], map[string]bool{binder: true}) {
+					base := Subst(a.Args[1], map[string]*Term{binder: IntLit(0)})
+					fv := map[string]*Term{}
+					freeBoundVars(base, map[string]bool{}, fv)
+					freeBoundVars(a.Args[0], map[string]bool{}, fv)
+					if len(fv) > 0 {
+						continue // mentions variables of an inner quantifier
+					}
+					for _, t0 := range known[a.Args[0].String()+"|"+c.String()] {
+						cand := Sub(t0, base)
+						if len(out) < 6 && !seen[cand.String()] {
+							seen[cand.String()] = true
+							out = append(out, cand)
+						}
+					}
+				}
+			}
+		}
+		if t.Kind == KApp {
+			for _, a := range t.Args {
+				walk(a)
+			}
+		}
+		if t.Kind == KQuant {
+			walk(t.Args[0])
+		}
+	}
+	walk(body)
+	return out
 }
